@@ -98,6 +98,7 @@ type corpus struct {
 	step    uint64
 	crosses map[string]bool
 	byI     []int // logical index -> position in docs
+	numAgg  bool  // has the numeric field `num` with a dictionary larger than one token block
 }
 
 const baseMID = 1_700_000_000_000
@@ -180,7 +181,7 @@ func genCorpus(shape string, rng *vh.RNG) *corpus {
 		}
 		if uniq > 0 {
 			u := fmt.Sprintf("u%0*d", uniq-1, (i*7919)%1000000)
-			toks = append(toks, "uid:"+u)
+			toks = append(toks, "uid:"+u, fmt.Sprintf("num:%d", 1000000+i)) // num: > 16 KiB dictionary of numbers growing with time
 			extra = fmt.Sprintf(`,"uid":"%s"`, u)
 		}
 		if exact > 0 {
@@ -227,6 +228,9 @@ func genCorpus(shape string, rng *vh.RNG) *corpus {
 		c.queries = append(c.queries, "ex:e000000000000000", fmt.Sprintf("ex:e%015d", exact-1), "ex:e*")
 	}
 	c.aggs = [][2]string{{"", "service"}, {"", "level"}, {"size", "service"}, {"size", ""}, {"", "pod"}}
+	if uniq > 0 {
+		c.numAgg = true
+	}
 	return c
 }
 
@@ -300,6 +304,25 @@ func buildRequests(c *corpus, rng *vh.RNG, quick bool) []request {
 					}
 					p := processor.SearchParams{AST: mustParse(q), From: seq.MID(w[0]), To: seq.MID(w[1]), Limit: []int{4, 1 << 20}[(qi+wi)%2], WithTotal: true, Order: order}
 					reqs = append(reqs, request{kind: "search", desc: fmt.Sprintf("search q=%q order=%d limit=%d total=true from=%d to=%d (lid-block window)", q, order, p.Limit, w[0], w[1]), params: p})
+				}
+			}
+		}
+	}
+	// aggregations over a numeric field whose dictionary spans several token blocks: the values are looked up in
+	// increasing (asc order) / decreasing token order across the block boundaries
+	if c.numAgg {
+		for qi, q := range []string{"_all_:*", "service:s1", "level:error OR level:warn"} {
+			for fi, fn := range []seq.AggFunc{seq.AggFuncSum, seq.AggFuncMin, seq.AggFuncMax} {
+				for _, order := range []seq.DocsOrder{seq.DocsOrderDesc, seq.DocsOrderAsc} {
+					for _, gb := range []string{"", "service"} {
+						aq := processor.AggQuery{Field: &parser.Literal{Field: "num", Terms: []parser.Term{{Kind: parser.TermSymbol, Data: "*"}}}, Func: fn}
+						if gb != "" {
+							aq.GroupBy = &parser.Literal{Field: gb, Terms: []parser.Term{{Kind: parser.TermSymbol, Data: "*"}}}
+						}
+						w := [][2]seq.MID{{c.from, c.to}, {c.from + (c.to-c.from)/3, c.to - (c.to-c.from)/4}}[(qi+fi)%2]
+						p := processor.SearchParams{AST: mustParse(q), From: w[0], To: w[1], Limit: 3, AggQ: []processor.AggQuery{aq}, Order: order}
+						reqs = append(reqs, request{kind: "agg", desc: fmt.Sprintf("agg q=%q func=%d field=\"num\" groupBy=%q order=%d from=%d to=%d (big numeric dictionary)", q, fn, gb, order, w[0], w[1]), params: p})
+					}
 				}
 			}
 		}
@@ -541,7 +564,7 @@ func runSysCaseInProcess(c sysCase, dir string) *sysResult {
 		return res
 	}
 	res.Stats["seal_ms"] = strconv.FormatInt(time.Since(t0).Milliseconds(), 10)
-	csB := newCacheSet(0)
+	csB := newCacheSet(512)
 	sealedB := frac.NewSealedPreloaded(base, pre, readLimiter, csB.index, csB.docs, cfg)
 	forms = append(forms, run("preloaded", sealedB, nil))
 	for _, q := range mq {
@@ -552,6 +575,10 @@ func runSysCaseInProcess(c sysCase, dir string) *sysResult {
 		res.Lines = append(res.Lines, [2]string{q.line, impl})
 	}
 	active.Release()
+	// the freshly sealed fraction keeps serving after the active one released its resources (same process, no reload);
+	// its caches are emptied first so that documents and index blocks are really read from the files again
+	csB.evict()
+	forms = append(forms, run("preloaded-after-release", sealedB, csB))
 
 	csC := newCacheSet(0)
 	sealedC := frac.NewSealed(base, readLimiter, csC.index, csC.docs, nil, cfg)
@@ -602,7 +629,9 @@ func runSysCaseInProcess(c sysCase, dir string) *sysResult {
 				switch {
 				case strings.HasPrefix(f.ans[i], "panic") || strings.HasPrefix(a, "panic"):
 					class = "panic"
-				case f.name != "preloaded" && f.ans[i] != forms[1].ans[i] && strings.HasPrefix(f.name, "loaded-tiny") && forms[2].ans[i] == forms[1].ans[i]:
+				case f.name == "preloaded-after-release":
+					class = "preloaded-broken-after-active-release"
+				case f.name != "preloaded" && f.ans[i] != forms[1].ans[i] && strings.HasPrefix(f.name, "loaded-tiny") && forms[3].ans[i] == forms[1].ans[i]:
 					class = "cache-size-dependence"
 				case f.name != "preloaded" && f.ans[i] != forms[1].ans[i]:
 					class = "loaded-vs-preloaded-mismatch"
@@ -921,6 +950,8 @@ func mismatchSite(m sysMismatch) string {
 	switch {
 	case strings.Contains(m.Class, "earlier-sealed-fraction-changed-by-later-seal"):
 		return "frac/active_sealer.go:writeSealedFraction"
+	case strings.Contains(m.Class, "preloaded-broken-after-active-release"):
+		return "frac/active.go:Release"
 	case strings.HasPrefix(m.Class, "fetch"):
 		return "frac/sealed_index.go:sealedFetchIndex"
 	case m.Class == "seal-error":
@@ -1011,7 +1042,7 @@ func runSystemOracle(o vh.Opts, rng *vh.RNG, rep *vh.Report, tmp string) {
 	rep.AddOracle(orc)
 	seqo := vh.NewOracle("c03.seal-sequence", "four fractions are filled and sealed one after another in ONE process (GOMAXPROCS=1, GC off so that pooled writers are reused); after every seal the new and every earlier freshly sealed (preloaded, not reloaded) fraction must still answer every search / histogram / aggregation / fetch like its active form did; varied: SkipSortDocs, zstd level, doc block size (128..1024 bytes -> many doc blocks); non-trivial = an earlier fraction with > 1 doc block re-checked after a later seal")
 	for i := 0; i < o.Pick(2, 8); i++ {
-		c := sysCase{Shape: "sealseq", Seed: int64(rng.U64() >> 2), SkipSort: i%4 == 3, Zstd: zs[i%4], DocBlock: []int{256, 128, 1024}[i%3], CacheKB: 0, OnlyReq: -1}
+		c := sysCase{Shape: "sealseq", Seed: int64(rng.U64() >> 2), SkipSort: i%2 == 1, Zstd: zs[i%4], DocBlock: []int{256, 128, 1024}[i%3], CacheKB: 0, OnlyReq: -1}
 		collect(seqo, rep, c.String(), 10*time.Minute)
 	}
 	rep.AddOracle(seqo)
